@@ -365,7 +365,7 @@ def _binary_accuracy_update(
         )
     else:
         # this is faster than using torch.tensor, but breaks for bool tensors because the shape will be cast to 1 in a bool tensor
-        num_total = target.new_tensor(target.shape[0])
+        num_total = target.new_tensor(target.shape[0], dtype=torch.int64)
     return num_correct, num_total
 
 
